@@ -582,9 +582,8 @@ def stabilizer_entropy(gs, mask):
     if L == N: # state is pure
         entropy = torch.div(z2rank(acq_mat(gs_across_sub)), 2, rounding_mode='floor')
     else:
-        strict = torch.sum(inside) - torch.sum(across)
-        hidden = z2rank(gs_across_sub) - z2rank(acq_mat(gs_across_sub))
-        entropy = torch.sum(mask) - strict - hidden
+        # stabilizers supported inside the subsystem = kernel of the restriction to the complement
+        entropy = torch.sum(mask) - (L - z2rank(gs[:, ~mask2]))
     return entropy
 
 
